@@ -439,6 +439,9 @@ func parseGSIBlock(b []byte) (g *gsiBlock, err error) {
 	// Framerate
 	if v, ok := stlFramerateMapping.Get(string(b[3:11])); ok {
 		g.framerate = v.(int)
+	} else {
+		err = fmt.Errorf("astisub: unknown disk format code %s", string(b[3:11]))
+		return
 	}
 
 	// Creation date
@@ -584,6 +587,12 @@ func (b gsiBlock) bytes() (o []byte) {
 
 // parseDurationSTL parses a STL duration
 func parseDurationSTL(i string, framerate int) (d time.Duration, err error) {
+	// Invalid length
+	if len(i) < 8 {
+		err = fmt.Errorf("astisub: invalid stl duration %s", i)
+		return
+	}
+
 	// Parse hours
 	var hours, hoursString = 0, i[0:2]
 	if hours, err = strconv.Atoi(hoursString); err != nil {
@@ -1024,6 +1033,12 @@ func encodeTextSTL(i string) (o []byte) {
 		if v, ok := stlUnicodeMapping.GetInverse(string(c)); ok {
 			o = append(o, v.(byte))
 		} else if v, ok := stlUnicodeDiacritic.GetInverse(string(c)); ok {
+			// A diacritic precedes the character it modifies. There's no such character when
+			// the text starts with a combining mark
+			if len(o) == 0 {
+				o = append(o, v.(byte))
+				continue
+			}
 			o = append(o[:len(o)-1], v.(byte), o[len(o)-1])
 		} else {
 			o = append(o, byte(c))
